@@ -452,8 +452,37 @@ def label_case(case, slots, baits, kinds, n_must, runs):
     return labels
 
 
+def template_cells():
+    """Every statement template of every language once, alone in a function of a plain file: first hole = a value that
+    must be reported under the default configuration (or a value-dependent exemption's far side), other holes = an allowed
+    value; and once more with the values swapped. No template is left to the draw."""
+    cells = []
+    for lang in ("py", "ts", "js", "rs"):
+        for name, tpl in rp.TEMPLATES[lang].items():
+            if name.startswith("bait_"):
+                continue
+            for swap in (False, True):
+                lits = []
+                for i, hole in enumerate(tpl.holes):
+                    flagged = (i == 0) != swap
+                    if hole == "flt":
+                        lits.append({"text": "2.75" if flagged else "3.5", "form": "float", "neg": False, "v": 2.75 if flagged else 3.5})
+                    else:
+                        lits.append({"text": "37" if flagged else "10", "form": "dec", "neg": False, "v": 37 if flagged else 10})
+                if swap and len(tpl.holes) < 2:
+                    continue
+                stt = {"t": name, "lits": lits}
+                if tpl.kind == "b":
+                    stt["body"] = []
+                cells.append({"lang": lang, "files": [{"kind": "plain", "items": [{"k": "func", "body": [stt]}]}],
+                              "cfg": {"allowed": None, "msi": None}, "delta": 37, "company": False})
+    return cells
+
+
 def run(ctx):
     ctx.explore(gen.cases(), check, max_examples=ctx.n(300, 5000))
+    cells = template_cells()
+    ctx.each(ctx.my_cells(cells), check, exhaustive_label="every statement template x (reported value first | allowed value first), default configuration")
 
 
 def replay(case) -> Case:
